@@ -27,6 +27,11 @@ fn build_world(http: bool) -> Result<World, String> {
         let one = Identifier::numeric(1).unwrap();
         admin.create_stream("s1", Some(1)).await?;
         admin.create_topic(&one, "t1", 1, CompressionAlgorithm::None, None, Some(1), IggyExpiry::NeverExpire, MaxTopicSize::Unlimited).await?;
+        // a topic whose id differs from its stream's, and a second stream whose id equals that topic id: a rule called
+        // with (topic id, stream id) instead of (stream id, topic id) then consults another stream's record
+        admin.create_topic(&one, "t2", 3, CompressionAlgorithm::None, None, Some(2), IggyExpiry::NeverExpire, MaxTopicSize::Unlimited).await?;
+        admin.create_stream("s2", Some(2)).await?;
+        admin.create_topic(&Identifier::numeric(2).unwrap(), "u1", 1, CompressionAlgorithm::None, None, Some(1), IggyExpiry::NeverExpire, MaxTopicSize::Unlimited).await?;
         iggy::client::ConsumerGroupClient::create_consumer_group(&admin, &one, &one, "g1", Some(1)).await?;
         admin.create_user("victim", "victim-pw", UserStatus::Active, None).await?;
         iggy::client::PersonalAccessTokenClient::create_personal_access_token(&admin, "tok", IggyExpiry::NeverExpire).await?;
@@ -231,14 +236,15 @@ pub struct HCase {
     pub ops: Vec<HOp>,
 }
 
-const MENU: [Rule; 11] = [Rule::GetStreams, Rule::GetStream, Rule::GetTopics, Rule::GetTopic, Rule::Poll, Rule::Append, Rule::GetUsers, Rule::GetStats, Rule::CreateTopic, Rule::CreateStream, Rule::GetGroup];
+/// the last three act on stream 1 / topic 2 (ids differ); the others on stream 1 / topic 1
+const MENU: [Rule; 14] = [Rule::GetStreams, Rule::GetStream, Rule::GetTopics, Rule::GetTopic, Rule::Poll, Rule::Append, Rule::GetUsers, Rule::GetStats, Rule::CreateTopic, Rule::CreateStream, Rule::GetGroup, Rule::DeletePartitions, Rule::CreatePartitions, Rule::PurgeTopic];
 
 impl Engine for PermHist {
     type Case = HCase;
     fn strategy(&self, _p: &Params) -> BoxedStrategy<HCase> {
         let spec = || prop_oneof![1 => Just(None), 4 => perm_spec(2, 2).prop_map(Some)];
         let op = prop_oneof![
-            12 => (0u8..2, 0u8..11).prop_map(|(session, what)| HOp::Request { session, what }),
+            12 => (0u8..2, 0u8..14).prop_map(|(session, what)| HOp::Request { session, what }),
             4 => spec().prop_map(HOp::Update),
             1 => Just(HOp::GrantAll),
             1 => Just(HOp::DeleteUser),
@@ -270,7 +276,7 @@ impl Engine for PermHist {
         out
     }
     fn rule(&self, _p: &Params) -> String {
-        "case = initial permission record of a user + history of requests (menu of 11 operations on stream 1 / topic 1) issued on two already open TCP sessions of that user, interleaved with update_permissions (arbitrary records, none, all), delete_user, and attempts to delete / strip the root user; oracle: a request that succeeds must be granted by the current record under the reference lattice (soundness end to end), with the all-permissions record every request must succeed, without a record or after deletion every request must be refused, root can be neither deleted nor re-permissioned; non-trivial = >=1 request issued after a permission change on an open session".into()
+        "case = initial permission record of a user + history of requests (menu of 14 operations: 11 on stream 1 / topic 1, and delete_partitions / create_partitions / purge_topic on stream 1 / topic 2 beside a stream with id 2, so that swapped (stream, topic) arguments consult another record) issued on two already open TCP sessions of that user, interleaved with update_permissions (arbitrary records, none, all), delete_user, and attempts to delete / strip the root user; oracle: a request that succeeds must be granted by the current record under the reference lattice (soundness end to end), with the all-permissions record every request must succeed, without a record or after deletion every request must be refused, root can be neither deleted nor re-permissioned; non-trivial = >=1 request issued after a permission change on an open session".into()
     }
 }
 
@@ -351,6 +357,21 @@ fn permhist_run(case: &HCase, w: &World, out: &mut Outcome) -> Check {
                         Rule::GetStats => c.get_stats().await.map(|_| ()),
                         Rule::CreateTopic => c.create_topic(&one, &name, 1, CompressionAlgorithm::None, None, None, IggyExpiry::NeverExpire, MaxTopicSize::Unlimited).await.map(|_| ()),
                         Rule::CreateStream => c.create_stream(&name, None).await.map(|_| ()),
+                        Rule::DeletePartitions => {
+                            // root adds one first, so that the partition count stays where it is
+                            let two = Identifier::numeric(2).unwrap();
+                            let _ = iggy::client::PartitionClient::create_partitions(&w.admin, &one, &two, 1).await;
+                            iggy::client::PartitionClient::delete_partitions(c, &one, &two, 1).await
+                        }
+                        Rule::CreatePartitions => {
+                            let two = Identifier::numeric(2).unwrap();
+                            let r = iggy::client::PartitionClient::create_partitions(c, &one, &two, 1).await;
+                            if r.is_ok() {
+                                let _ = iggy::client::PartitionClient::delete_partitions(&w.admin, &one, &two, 1).await;
+                            }
+                            r
+                        }
+                        Rule::PurgeTopic => c.purge_topic(&one, &Identifier::numeric(2).unwrap()).await,
                         _ => iggy::client::ConsumerGroupClient::get_consumer_group(c, &one, &one, &one).await.and_then(|o| o.map(|_| ()).ok_or(IggyError::ResourceNotFound("g".into()))),
                     }
                 });
@@ -377,7 +398,8 @@ fn permhist_run(case: &HCase, w: &World, out: &mut Outcome) -> Check {
                         }
                     }
                     Some(spec) => {
-                        let allowed = reference_allows(&canon_spec(spec), rule, 1, 1);
+                        let topic = if matches!(rule, Rule::DeletePartitions | Rule::CreatePartitions | Rule::PurgeTopic) { 2 } else { 1 };
+                        let allowed = reference_allows(&canon_spec(spec), rule, 1, topic);
                         if ok && !allowed {
                             return Err(fail("allowed-without-granting-permission", format!(
                                 "step {i}: {:?} succeeded on an open session although the user's current record grants nothing for it: {:?}", rule, spec)).tag(format!("rule:{:?}", rule)));
